@@ -5,7 +5,8 @@ from vcheck import Case, hx, flist, parse_vals
 
 PID = "C12"
 RULE = ("one case = one request (rule n a b | pair n a b | rule_default n | int n a b f | int_default a b f | values.. ), one nested integration "
-        "(nest: depth 1..6, every level through any overload) or one session of requests made one after the other in one process (sess); "
+        "(nest: depth 1..6, every level through any overload; nestx: the same with an innermost integrand that throws on part of its domain and handlers "
+        "inside enclosing integrands, asked through each overload and through (values,rule) at every level) or one session of requests made one after the other in one process (sess); "
         "non-trivial = a rule request with odd n, or n > 64, or an interval that does not contain 0 (this includes every reversed "
         "and far-from-origin interval), or a size-guard request with mismatched lengths, or a nested integration of depth >= 2, or a session "
         "of >= 2 requests; distinct by case text")
@@ -15,8 +16,14 @@ LEVEL_TEXT = ("Theorems (Coq, every n >= 1, every interval, every real z_i, pp_i
               "affine image of the rule on [-1,1] with weights scaled by (b-a)/2, hence exactness for all polynomials of degree <= d and "
               "sum w = b-a transfer from [-1,1] to every interval (and orientation is respected); the three overloads return the same weighted sum and "
               "mismatched lengths exit; the moment checker is sound (moment defects delta_k bound the quadrature error of every polynomial of degree < K "
-              "by sum |c_k| delta_k). NOT theorems: that the Newton iteration from the Chebyshev-like guess converges, for every n, to the distinct roots of P_n, "
-              "and that the weights are positive (the classical Gauss theorem applied to the computed doubles). These clauses are decided on the "
+              "by sum |c_k| delta_k). "
+              "Ordering, interior and sign of the weights are theorems for every n and every interval of either orientation GIVEN two statements about the Newton results alone "
+              "(C12_valid_rule_of_roots: z_0 > z_1 > ... strictly decreasing inside (-1,1), last one positive for even n / above the negatives of the others for odd n, pp_i <> 0); "
+              "what the Newton stage computes is a theorem for every n: the inner loop yields (P_n(z), P_(n-1)(z)) of Bonnet's recurrence (C12_legendre_loop), the source's pp is the derivative P_n'(z) "
+              "(C12_pp_is_derivative, proved from the recurrence by induction with Coquelicot's is_derive), so each pass is a genuine Newton step, and every delivered pair is (N(z1), P_n'(z1)) for a Newton iterate z1 "
+              "of the Chebyshev-like guess with |N(z1) - z1| <= 1e-14, hence |P_n(z1)| <= 1e-14 |P_n'(z1)| (C12_newton_stage, C12_newton_residual; induction over the fuel; premise: no iterate is exactly +-1). "
+              "NOT theorems: that the Newton iteration from the Chebyshev-like guess converges, for every n, to the distinct roots of P_n in decreasing order (i.e. that its results satisfy roots_ok/pp_ok; shown in Coq for n = 1 only), "
+              "and that the reference rule is exact to degree 2n-1 (the classical Gauss theorem applied to the computed doubles). These clauses are decided on the "
               "implementation by exhaustive enumeration of n (thorough: every n = 1..512 and a sample up to 4000; quick: every n = 1..64 and a sample up to 512) "
               "on intervals including reversed, far from the origin, of every magnitude (ladder 1e-305 .. 1e300, subnormal lengths, end points up to DBL_MAX) and, through the integration overloads, with end points 1 .. 1e6 ulps apart: ordering, interior, symmetry, sign and sum of the weights, and exactness on "
               "every monomial and Legendre-basis polynomial of degree <= min(2n-1, 60) with the verified moment checker run in exact integer arithmetic on the "
@@ -24,11 +31,15 @@ LEVEL_TEXT = ("Theorems (Coq, every n >= 1, every interval, every real z_i, pp_i
               "Re-entrant use and call histories: the model has no state (the code has none: no statics, a fresh value vector per call), integrands that call the library are "
               "modelled as functions into outcomes (gl_integrate_funM, gl_nest); theorems: an always-returning integrand gives the plain overloads (C12_reentrant_pure), nested integrations "
               "with pairwise equal orders and limits agree whichever overload each level uses (C12_nest_overloads_agree), a guard reached by the innermost integrand ends the whole nest "
-              "(C12_nest_exit_propagates). On the implementation: nested integrations of depth 1..6 through every mix of the overloads (agreement of the three overloads at the top, exactness on "
+              "(C12_nest_exit_propagates). Integrands that throw are modelled as functions into res (option T) (gl_integrate_funX, gl_levelX, gl_nestX: an exception passes through every library frame up to the first handler, "
+              "which may sit inside the integrand of an enclosing integration and substitutes a value); theorems: without exceptions this is the exception-free model (C12_throwing_refines), the overloads agree at every depth also when "
+              "evaluations throw and handlers intervene (C12_nestX_overloads_agree), a call under a handler never lets an exception out and is unchanged when none arrives (C12_handler), a failed and handled inner integration "
+              "counts as its substitute value and nothing else (C12_handled_failure). On the implementation: nested integrations of depth 1..6 through every mix of the overloads (agreement of the three overloads at the top, exactness on "
               "polynomial cores against the exact tensor integral, size-guard probes made by the integrand itself) and sessions in one process (adjacent equal panels at offsets up to 1e12/n^2 widths, "
               "the same request with limits moved by 1e-16 .. 1e-6 relative, changing orders, reversed limits, repeats, requests abandoned by an exception of their integrand at any depth, "
-              "size-guard probes after all of these); every answer is compared with the stateless model and checked against the clauses of its own request.")
-LEVEL_NOTE = ("Coq 8.16.1 kernel; theorems over R (standard-library real axioms, Coquelicot for RInt); hand-written model tied by differential correspondence "
+              "size-guard probes after all of these, nested integrations whose innermost integrand throws on a half-line / band / alternating / quadrant pattern of its domain with handlers at any levels, each asked through "
+              "every overload at the top and through (values,rule) at every level (nestx: four answers that must coincide bit for bit) and, in sessions, again through other mixes of the overloads); every answer is compared with the stateless model and checked against the clauses of its own request.")
+LEVEL_NOTE = ("Coq 8.16.1 kernel; theorems over R (standard-library real axioms, Coquelicot for RInt and is_derive, Interval only for the n = 1 non-vacuity examples: |cos(M_PI/2)| <= 1e-14 for the decimal M_PI); hand-written model tied by differential correspondence "
               "(bit-identical expected); the Newton loop of the source has no iteration cap: the model gives it fuel 100 and reports FUEL; "
               "the function overload reads row[0] before the row-size guard of the value overload: an empty row is an out-of-bounds read (model outcome OOB, not generated); "
               "std::cos / M_PI modelled by OCaml's cos (glibc) and the literal 0x1.921fb54442d18p+1")
@@ -41,7 +52,7 @@ ASSUMPTIONS = ["rule requests are generated with |b-a| >= 1e-4*max(|a|,|b|) (kin
                "magnitudes: every decade ladder 1e-305 .. 1e300 in every position relative to the origin, subnormal lengths, and end points up to DBL_MAX; requests whose a+b or b-a is not a double are the region of K-C12-1",
                "convergence of the Newton iteration to distinct roots and positivity of the weights are not theorems; they are enumerated on the implementation (S4)",
                "nested integrations and sessions use limits of moderate magnitude (2^-100 .. 2^100), orders whose product stays below 1200 (quick) / 4000 (thorough) evaluations of the innermost integrand, and depth <= 6; "
-               "an integrand abandons a request by throwing an exception of the harness; Integrate(..., \"Gauss-Legendre_2\") and Integrate_2D/3D are other entry points (not driven here)"]
+               "an integrand abandons a request by throwing an exception of the harness (one exception type; handlers substitute a constant and do not retry); Integrate(..., \"Gauss-Legendre_2\") and Integrate_2D/3D are other entry points (not driven here)"]
 
 EPS = 2.0 ** -53
 NEWTON = 1e-14   # the source's eps: a-priori bound on the last Newton step
@@ -186,14 +197,21 @@ INT_NS = [1, 2, 3, 4, 5, 6, 7, 8, 9, 10, 15, 16, 30, 31, 64]
 # lev  := kind n a b      kind: I = (func,a,b,n), F = (func,rule), U = (values,rule), D = (func,a,b) with the default order 30
 # core := P fexpr | G k n a b fexpr      innermost integrand in v0..v(d-1); G multiplies by the value overload called by the
 #                                        integrand itself with k unit values on the rule (n,a,b) (rejected when k != n)
+#         a kind followed by 'c' (Ic Fc Uc Dc) takes a fifth token fb: the call of this level is made under a handler
+#         (try { v = call; } catch (the integrand's exception) { v = fb; }) inside the integrand of the level above
+# core may also be  T cond fexpr           the integrand throws where cond < 0 (it is not defined there), else fexpr
+# nestx d lev_1..lev_d core              integrands that throw and handle: the outermost level through each of the three overloads
+#                                        and, fourth, every level through (values,rule) with the values collected by the caller
+#                                        (no library frame is re-entered): four answers, each a value or "A count" (exception not handled)
 # nest d lev_1..lev_d core               the outermost level through (func,a,b,n), (func,rule), (values,rule): three values
 # sess k req_1..req_k                    requests made one after the other in one process:
 #   R n a b | V n a b <list of values> | N d lev.. core | X at d lev.. core   (X: the core throws at its at-th evaluation)
 MOD_KINDS = ["unit", "zero-one", "generic", "straddle", "far"]
 
 
-def _order(l): return 30 if l[0] == "D" else l[1]
-def _lev_tok(l): return f"{l[0]} {l[1]} {hx(l[2])} {hx(l[3])}"
+def _order(l): return 30 if l[0][0] == "D" else l[1]
+def _lev_tok(l): return f"{l[0]} {l[1]} {hx(l[2])} {hx(l[3])}" + (f" {hx(l[4])}" if len(l[0]) > 1 else "")
+def _catches(l): return len(l[0]) > 1
 def _levs_tok(levs): return f"{len(levs)} " + " ".join(_lev_tok(l) for l in levs)
 
 
@@ -287,6 +305,66 @@ def _nest_case(rng, d, budget, guard=None, smooth=False):
     return Case(f"nest {_levs_tok(levs)} {core}", tags, tol=(1e-12, _abs_tol([("N", levs, core)])))
 
 
+def _throw_cond(rng, levs, j):
+    """where the innermost integrand is not defined (cond < 0): a half-line, a band, an alternating pattern in one variable or a
+    quadrant pattern in two; the variable is preferably one of the levels above the handler of level j (then whole inner integrations
+    fail at some nodes of the enclosing one and succeed at others), else one below it (the inner integration fails part-way)"""
+    d = len(levs)
+    def var():
+        if j >= 1 and rng.random() < 0.7: return rng.randrange(j)
+        return rng.randrange(d)
+    def thr(i):
+        lo, hi = min(levs[i][2], levs[i][3]), max(levs[i][2], levs[i][3])
+        return lo + (hi - lo) * rng.choice([0.3, 0.5, 0.1, 0.9, 0.7, rng.random()]), lo, hi
+    i = var(); t, lo, hi = thr(i)
+    r = rng.random()
+    if r < 0.3: return f"- v {i} c {hx(t)}"
+    if r < 0.55: return f"- c {hx(t)} v {i}"
+    if r < 0.7: return f"- abs - v {i} c {hx(t)} c {hx((hi - lo) * rng.choice([0.05, 0.2, 0.4]))}"
+    if r < 0.85:
+        k = rng.randint(1, 6)
+        return f"sin * c {hx(k * math.pi / (hi - lo) if hi > lo else 1.0)} - v {i} c {hx(lo)}"
+    i2 = var(); t2, _, _ = thr(i2)
+    return f"* - v {i} c {hx(t)} - v {i2} c {hx(t2)}"
+
+
+def _with_handlers(rng, levs, p_inner=0.5, p_top=0.1, at_least=True):
+    """put handlers (with their substitute values) on some levels; returns (levels, index of the outermost handled level >= 1 or 0)"""
+    d = len(levs)
+    hs = [rng.random() < (p_top if j == 0 else p_inner) for j in range(d)]
+    if at_least and d >= 2 and not any(hs[1:]): hs[rng.randrange(1, d)] = True
+    out = [((l[0] + "c",) + tuple(l[1:]) + (rng.choice([0.0, 0.0, 1.0, -1.0, rng.uniform(-2, 2)]),)) if h else l for l, h in zip(levs, hs)]
+    js = [j for j in range(1, d) if hs[j]]
+    return out, (js[0] if js else 0)
+
+
+def _throwing_nest(rng, d, budget):
+    """levels with handlers and an innermost integrand that throws on part of its domain (sometimes one that never throws: the
+    handlers are then unused)"""
+    levs, j = _with_handlers(rng, _levels(rng, d, budget))
+    ex = _smooth_core(rng, d) if rng.random() < 0.2 else _core_poly(rng, levs)
+    r = rng.random()
+    if r < 0.85: core = f"T {_throw_cond(rng, levs, j)} {ex}"
+    elif r < 0.95: core = f"P {ex}"
+    else: core = _core_tok(rng, levs, "match")
+    return levs, core
+
+
+def _nestx_case(rng, d, budget):
+    levs, core = _throwing_nest(rng, d, budget)
+    return Case(f"nestx {_levs_tok(levs)} {core}", ("nestx", f"depth{d}", "core-" + core[0]), tol=(1e-12, _abs_tol([("N", levs, core)])))
+
+
+def _rekind(rng, levs, flat=False):
+    """the same nested integration asked through other overloads, level by level (orders, limits and handlers kept)"""
+    out = []
+    for l in levs:
+        n = _order(l)
+        k = "U" if flat else rng.choice(["I", "F", "U"] + (["D"] if n == 30 else []))
+        out.append((k + l[0][1:], n) + tuple(l[2:]))
+    return out
+
+
 def _panel_limits(rng, n, k):
     """k+1 limits of k adjacent panels of (nearly) equal width w at offset c, c/w on a geometric ladder up to 1e12/n^2 (the nodes
     of every panel stay many ulps apart), exactly representable (binary) or generic; either sign, ascending or descending"""
@@ -327,7 +405,13 @@ def _random_request(rng, budget=400, maxdepth=4):
     if r < 0.35:
         n = rng.choice([1, 2, 3, 4, 5, 8, 9, 16]); a, b = _mod_interval(rng)
         return ("V", n, a, b, [rng.choice([1.0, rng.uniform(-2, 2)]) for _ in range(n)])
-    d = rng.randint(1, maxdepth); levs = _levels(rng, d, budget)
+    d = rng.randint(1, maxdepth)
+    if rng.random() < 0.25:       # integrands that throw on part of their domain, handlers inside enclosing integrands
+        levs, core = _throwing_nest(rng, max(d, 2), budget)
+        if r < 0.85: return ("N", levs, core)
+        tot = _evals(levs)
+        return ("X", levs, core, rng.choice([1, max(1, tot // 2), rng.randint(1, tot)]))
+    levs = _levels(rng, d, budget)
     core = _core_tok(rng, levs, "match" if rng.random() < 0.15 else None, smooth=rng.random() < 0.15)
     if r < 0.8: return ("N", levs, core)
     tot = _evals(levs)
@@ -335,7 +419,7 @@ def _random_request(rng, budget=400, maxdepth=4):
 
 
 def _session(rng):
-    shape = rng.choice(["panels", "panels", "shift", "shift", "orders", "reversed", "repeat", "guard", "guard", "mixed", "mixed"])
+    shape = rng.choice(["panels", "panels", "shift", "shift", "orders", "reversed", "repeat", "guard", "guard", "mixed", "mixed", "handled", "handled", "remix"])
     reqs = []
     mode = lambda: rng.choice(["R", "R", "I", "I", "F", "U"])
     if shape == "panels":
@@ -386,6 +470,23 @@ def _session(rng):
         else:
             d = rng.randint(1, 4); levs = _levels(rng, d, 300)
             reqs.append(("N", levs, _core_tok(rng, levs, g)))
+    elif shape == "handled":
+        # one nested integration whose integrand throws and handles, asked through several mixes of the overloads and through
+        # (values,rule) alone, with other requests in between and afterwards
+        d = rng.randint(2, 4); levs, core = _throwing_nest(rng, d, 300)
+        at = None
+        if rng.random() < 0.2: at = rng.randint(1, _evals(levs))      # ... or one that throws from its at-th evaluation on
+        mk = lambda lv: ("N", lv, core) if at is None else ("X", lv, core, at)
+        reqs.append(mk(levs))
+        for _ in range(rng.randint(1, 3)):
+            if rng.random() < 0.3: reqs.append(_random_request(rng, 200, 3))
+            reqs.append(mk(_rekind(rng, levs, flat=rng.random() < 0.4)))
+        if not any(all(l[0][0] == "U" for l in q[1]) for q in reqs if q[0] in ("N", "X") and q[2] is core): reqs.append(mk(_rekind(rng, levs, flat=True)))
+        if rng.random() < 0.5: reqs.append(_random_request(rng, 200, 3))
+    elif shape == "remix":
+        # any nested integration asked again through other overloads
+        d = rng.randint(1, 4); levs = _levels(rng, d, 300); core = _core_tok(rng, levs, smooth=rng.random() < 0.3)
+        reqs = [("N", levs, core)] + [("N", _rekind(rng, levs, flat=rng.random() < 0.3), core) for _ in range(rng.randint(1, 3))]
     else:
         for _ in range(rng.randint(3, 6)): reqs.append(_random_request(rng))
     line = f"sess {len(reqs)} " + " ".join(_req_tok(q) for q in reqs)
@@ -410,7 +511,9 @@ def _rd_fexpr(t, p):
 def _rd_levels(t, p):
     d = int(t[p]); p += 1; levs = []
     for _ in range(d):
-        levs.append((t[p], int(t[p + 1]), float.fromhex(t[p + 2]), float.fromhex(t[p + 3]))); p += 4
+        l = (t[p], int(t[p + 1]), float.fromhex(t[p + 2]), float.fromhex(t[p + 3])); p += 4
+        if len(l[0]) > 1: l += (float.fromhex(t[p]),); p += 1
+        levs.append(l)
     return levs, p
 
 
@@ -418,6 +521,7 @@ def _rd_core(t, p):
     core = {"kind": t[p]}; p += 1
     if core["kind"] == "G":
         core.update(k=int(t[p]), n=int(t[p + 1]), a=float.fromhex(t[p + 2]), b=float.fromhex(t[p + 3])); p += 4
+    if core["kind"] == "T": core["cond"], p = _rd_fexpr(t, p)
     core["ast"], p = _rd_fexpr(t, p)
     return core, p
 
@@ -434,7 +538,8 @@ def _rd_session(line):
         else:
             q = {"op": c}
             if c == "X": q["at"] = int(t[p]); p += 1
-            q["levs"], p = _rd_levels(t, p); q["core"], p = _rd_core(t, p)
+            q["levs"], p = _rd_levels(t, p); pc = p; q["core"], p = _rd_core(t, p)
+            q["canon"] = (c, q.get("at"), tuple((_order(l), l[2], l[3], l[4] if _catches(l) else None) for l in q["levs"]), " ".join(t[pc:p]))
         q["text"] = " ".join(t[p0:p]); reqs.append(q)
     return reqs
 
@@ -500,6 +605,7 @@ def _nest_reference(levs, core):
     by at most prod(B_j (1 + r_j)) - prod(B_j), B_j = L_u M_u^e >= |int u^e|; evaluating the core costs (operations) 2^-53 of its
     magnitude; a G core multiplies by the weights' total of its own rule, (b-a)(1 +- (W(n) + (2n + 5) 2^-53))."""
     d = len(levs); atoms = {}
+    if core["kind"] == "T": return None      # piecewise: decided by the agreement with the all-(values,rule) evaluation
     pr = _poly(core["ast"], d, atoms)
     if pr is None: return None
     P, Pabs, size = pr
@@ -545,13 +651,21 @@ def _abs_tol(reqs):
         else:
             levs = q[1]
             core = q[2] if isinstance(q[2], dict) else _rd_core(q[2].split(), 0)[0]
-            r = _nest_reference(levs, core)
-            if r is not None: m = max(m, float(r[2]))
+            r = _nest_reference(levs, core if core["kind"] != "T" else dict(core, kind="P"))
+            if r is not None: v = float(r[2])
             else:
                 v = 4.0
                 for l in levs: v *= abs(l[3] - l[2])
-                m = max(m, v)
+            w = 1.0
+            for l in levs:      # substitute values of the handlers, integrated over the levels above
+                if _catches(l): v += abs(l[4]) * w
+                w *= abs(l[3] - l[2])
+            m = max(m, v)
     return 1e-13 * m
+
+
+def _core_text(line):
+    t = line.split(); _, p = _rd_levels(t, 1); return " ".join(t[p:])
 
 
 def _core_guard(core): return core["kind"] == "G" and core["k"] != core["n"]
@@ -569,7 +683,7 @@ def _nest_exact(tag, levs, core, got, what):
 
 
 def _describe(levs):
-    return " of ".join(f"{ {'I': '(func,a,b,n)', 'F': '(func,rule)', 'U': '(values,rule)', 'D': '(func,a,b)', '*': '(each overload)'}[l[0]] } n={_order(l)} on [{l[2]!r},{l[3]!r}]" for l in levs)
+    return " of ".join(f"{ {'I': '(func,a,b,n)', 'F': '(func,rule)', 'U': '(values,rule)', 'D': '(func,a,b)', '*': '(each overload)'}[l[0][0]] }{' under a handler' if _catches(l) else ''} n={_order(l)} on [{l[2]!r},{l[3]!r}]" for l in levs)
 
 
 def generate(rng, tier):
@@ -671,6 +785,9 @@ def generate(rng, tier):
         d = 1 + i % 6
         r = rng.random()
         cs.append(_nest_case(rng, d, budget, guard=("mismatch" if r < 0.15 else "match" if r < 0.22 else None), smooth=0.22 <= r < 0.3))
+    # ---- integrands that throw on part of their domain, with handlers inside enclosing integrands (depth 1..5)
+    for i in range(1200 if big else 160):
+        cs.append(_nestx_case(rng, [2, 3, 2, 4, 3, 2, 5, 1][i % 8], budget))
     # ---- sessions: several requests in one process (adjacent panels at every offset, nearly equal requests, changing orders,
     #      reversed limits, repeats, requests abandoned by their integrand, size-guard probes in every context)
     for _ in range(2400 if big else 300):
@@ -688,7 +805,7 @@ def nontrivial(c, io):
     if op == "int":
         n = int(t[1]); a, b = float.fromhex(t[2]), float.fromhex(t[3])
         return n % 2 == 1 or n > 64 or not (min(a, b) <= 0.0 <= max(a, b))
-    if op == "nest": return int(t[1]) >= 2
+    if op in ("nest", "nestx"): return int(t[1]) >= 2
     if op == "sess": return int(t[1]) >= 2
     return False
 
@@ -903,6 +1020,32 @@ def predicates(c, io):
             if k < len(v):
                 e = _nest_exact("nest", levs, core, v[k], f"{what}, outermost level through {nm}")
                 if e: out += e; break
+    elif op == "nestx":
+        levs, p = _rd_levels(t, 1); core, p = _rd_core(t, p)
+        what = f"nested integration, depth {len(levs)} ({_describe([('*' + levs[0][0][1:],) + tuple(levs[0][1:])] + levs[1:])})"
+        if _core_guard(core):
+            if not io.startswith("EXIT"):
+                out.append(("nestx:size-guard:reentrant", f"{what}: the integrand calls the value overload with {core['k']} values on a rule of {core['n']} rows and the call was accepted: {io[:80]}"))
+            return out
+        if io.startswith("EXIT"): return [("nestx:exit", f"{what} terminated the process")]
+        ans = []; p = 0
+        while p < len(v):
+            if v[p] == "A": ans.append(tuple(v[p:p + 2])); p += 2
+            else: ans.append(v[p]); p += 1
+        if len(ans) != 4: return [("nestx:count", f"{what}: {len(ans)} answers instead of 4: {io[:80]}")]
+        same = lambda x, y: x == y or (isinstance(x, float) and isinstance(y, float) and math.isnan(x) and math.isnan(y))
+        names = ("(func,a,b,n)", "(func,rule)", "(values,rule)", "(values,rule) at every level")
+        bad = [k for k in range(3) if not same(ans[k], ans[3])]
+        if bad:
+            out.append(("nestx:overloads-agree", f"{what}; integrand {_core_text(c.line)[:200]}: the outermost level through {names[bad[0]]} gives {ans[bad[0]]!r}, "
+                        f"the same rules and function values through (values,rule) at every level give {ans[3]!r} (all four: {ans})"))
+        if core["kind"] != "T":
+            if any(isinstance(x, tuple) for x in ans):
+                out.append(("nestx:spurious-exception", f"{what}: the integrand never throws but an exception left the request: {ans}"))
+            else:
+                for k in range(4):
+                    e = _nest_exact("nestx", levs, core, ans[k], f"{what}, outermost level through {names[k]}")
+                    if e: out += e; break
     elif op == "sess":
         reqs = _rd_session(c.line)
         guard_at = next((i for i, q in enumerate(reqs) if (q["op"] == "V" and len(q["vals"]) != q["n"]) or (q["op"] == "N" and _core_guard(q["core"]))), None)
@@ -915,7 +1058,7 @@ def predicates(c, io):
                 out.append((f"sess:size-guard:{ctx}", f"request {guard_at + 1} of the session ({q['text'][:120]}) hands the value overload a number of values different from the number of rows and was accepted: {io[:80]}"))
             return out
         if io.startswith("EXIT"): return [("sess:exit", "a session of well-formed requests terminated the process")]
-        p = 0; seen = {}
+        p = 0; seen = {}; seenc = {}
         for i, q in enumerate(reqs):
             where = f"request {i + 1} of {len(reqs)}"
             if p >= len(v): out.append(("sess:count", f"{where}: no answer")); break
@@ -927,20 +1070,31 @@ def predicates(c, io):
                 full = n <= 16
                 if max(abs(a), abs(b)) > 0 and abs(b - a) >= max(1e-12 * n * n, 4e-16) * max(abs(a), abs(b)):
                     out += [(sg, f"{where}: " + ms) for sg, ms in _rule_predicates("sess-rule", n, a, b, ans[1:1 + m], ans[1 + m:], full=full)]
-            elif q["op"] == "X" and v[p] == "A":
+            elif q["op"] in ("N", "X") and v[p] == "A":
                 ans = v[p:p + 2]; p += 2
-                if ans[1] != q["at"] or q["at"] > _evals(q["levs"]):
+                plain = q["core"]["kind"] != "T" and not any(_catches(l) for l in q["levs"])
+                if q["op"] == "N" and q["core"]["kind"] != "T":
+                    out.append(("sess:abandon-count", f"{where}: the integrand never throws but an exception left the request after {ans[1]} evaluations"))
+                elif q["op"] == "X" and plain and (ans[1] != q["at"] or q["at"] > _evals(q["levs"])):
                     out.append(("sess:abandon-count", f"{where}: the integrand abandons the request at its evaluation {q['at']} of {_evals(q['levs'])}; reported {ans[1]}"))
             else:
                 ans = v[p:p + 1]; p += 1
-                if q["op"] == "X":
-                    if q["at"] <= _evals(q["levs"]): out.append(("sess:abandon-count", f"{where}: the integrand throws at its evaluation {q['at']} of {_evals(q['levs'])} but the request returned {ans[0]!r}"))
+                threw = q["op"] == "X" and q["at"] <= _evals(q["levs"])
+                if threw and not any(_catches(l) for l in q["levs"]) and q["core"]["kind"] != "T":
+                    out.append(("sess:abandon-count", f"{where}: the integrand throws at its evaluation {q['at']} of {_evals(q['levs'])} but the request returned {ans[0]!r}"))
                 if q["op"] in ("N", "X"):
-                    out += _nest_exact("sess", q["levs"], q["core"], ans[0], f"{where}: {_describe(q['levs'])}")
+                    if not threw: out += _nest_exact("sess", q["levs"], q["core"], ans[0], f"{where}: {_describe(q['levs'])}")
                 elif all(x == 1.0 for x in q["vals"]) and q["n"] >= 1 and isinstance(ans[0], float):
                     hl = 0.5 * q["b"] - 0.5 * q["a"]; n = q["n"]
                     if not (abs(0.5 * ans[0] - hl) <= abs(hl) * (W(n) + (n + 2) * 2 * EPS)):
                         out.append(("sess:sum", f"{where}: unit values on the rule n={n} [{q['a']!r},{q['b']!r}] give {ans[0]!r}, b-a = {q['b'] - q['a']!r}"))
+            if q["op"] in ("N", "X"):
+                # the same nested integration (orders, limits, handlers, integrand) through other overloads: the same answer
+                if q["canon"] in seenc and seenc[q["canon"]][1] != ans and not any(isinstance(x, float) and math.isnan(x) for x in ans):
+                    j0, a0 = seenc[q["canon"]]
+                    out.append(("sess:overloads-agree", f"{where} ({_describe(q['levs'])}; integrand {q['canon'][3][:160]}) is request {j0 + 1} ({_describe(reqs[j0]['levs'])}) through other overloads "
+                                f"and is answered {ans} against {a0}"))
+                seenc.setdefault(q["canon"], (i, ans))
             if q["op"] != "X":
                 if q["text"] in seen and seen[q["text"]][1] != ans and not any(isinstance(x, float) and math.isnan(x) for x in ans):
                     out.append(("sess:repeatable", f"{where} is request {seen[q['text']][0] + 1} again ({q['text'][:100]}) and is answered differently: {ans[:4]} against {seen[q['text']][1][:4]}"))
